@@ -270,6 +270,19 @@ def prims2_case(seed):
     return {"lines": lines, "impl": impl, "meta": {"kind": "prims2", "seed": seed, "stats": stats}}
 
 
+def cm_tolerance(simplices, wants):
+    """absolute tolerance for volumes computed through the Cayley-Menger determinant (simplex_volume_in_embedding): the rounding
+    error of vol^2 is absolute on the scale L^(2k) of the point set (L = longest edge, k = number of vertices - 1), so the error of
+    vol is about eps * K * L^(2k) / (2 vol): relative 1e-8 for well-shaped simplices, proportionally more for thin ones"""
+    tol = 0.0
+    for q, w in zip(simplices, wants):
+        pts = [[float(c) for c in v] for v in q]
+        L = max((math.dist(a, b) for i, a in enumerate(pts) for b in pts[i + 1:]), default=0.0)
+        k = len(pts) - 1
+        tol = max(tol, 1e-13 * L ** (2 * k) / max(w, 1e-300))
+    return tol
+
+
 def cmp_bits(a, b):
     """impl `<ulp>|#..,#..` against model `#..,#..`: bit-exact, or within <ulp> units in the last place"""
     ulp, _, av = a.partition("|")
@@ -606,6 +619,7 @@ def o_nd_losses(R, rng, g):
             nbv.append(mkv())
     present = [(n, v) for n, v in zip(nb, nbv) if n is not None]
     tl = None
+    qs = []
     if present:
         vols, good = [], True
         for n_, v_ in present:
@@ -614,6 +628,7 @@ def o_nd_losses(R, rng, g):
                 good = False
                 break
             vols.append(gram_vol_sq(q))
+            qs.append(q)
         if good and all(v >= 0 for v in vols):
             tl = sum(math.sqrt(float(v)) for v in vols) / len(present)
     else:
@@ -621,7 +636,8 @@ def o_nd_losses(R, rng, g):
     nondeg = tl is not None and (not present or all(v > Fr(1e-9) for v in vols))
     ok, got = R.call("learnerND.triangle_loss", LN.triangle_loss, pts, vals, 1.0, nb, nbv) if nondeg else (False, None)
     if ok and tl is not None and (tl > 1e-3 or not present):
-        R.check("learnerND.triangle_loss", "nd_triangle_loss", abs(float(got) - tl) <= 1e-8 * max(tl, 1e-300) if present else float(got) == 0,
+        R.check("learnerND.triangle_loss", "nd_triangle_loss",
+                abs(float(got) - tl) <= 1e-8 * max(tl, 1e-300) + cm_tolerance(qs, [math.sqrt(float(v)) for v in vols]) if present else float(got) == 0,
                 f"triangle_loss = {float(got)!r}, mean exact volume of the simplices spanned with each neighbour {tl!r}")
     expl = rng.choice([0.05, 0.05, 0.5, 0.0])
     ok, got = R.call("learnerND.curvature_loss_function()", lambda: LN.curvature_loss_function(expl)(pts, vals, 1.0, nb, nbv)) if nondeg else (False, None)
@@ -834,19 +850,20 @@ def o_l2d(R, rng, g):
         ok, got = R.call("learner2D.triangle_loss", L2.triangle_loss, ip)
         if ok:
             V = [[Fr(float(c)) for c in v] for v in ip.values]
-            want, good = [], True
+            want, good, cmt = [], True, []
             for i, s in enumerate(simp):
                 nbr = sorted({int(v) for nb in ip.tri.neighbors[i] if nb != -1 for v in simp[nb]} - {int(v) for v in s})
                 if not nbr:
                     good = False
                     break
-                vols = [gram_vol_sq([P[j] + V[j] for j in s] + [P[c] + V[c]]) for c in nbr]
+                sims = [[P[j] + V[j] for j in s] + [P[c] + V[c]] for c in nbr]
+                vols = [gram_vol_sq(q) for q in sims]
                 want.append(sum(math.sqrt(float(v)) for v in vols) / len(nbr))
+                cmt.append(cm_tolerance(sims, [math.sqrt(float(v)) for v in vols]))
             if good and all(w > 1e-3 for w in want):
-                # (volumes through the Cayley-Menger determinant: the rounding error is absolute on the scale of the point set, so a
-                # simplex that is thin compared with its neighbours is judged on the scale of the largest volume)
+                # (volumes through the Cayley-Menger determinant: the rounding error is absolute on the scale of the point set - cm_tolerance)
                 R.check("learner2D.triangle_loss", "l2d_triangle_loss",
-                        all(abs(float(a) - w) <= 1e-8 * w + 1e-10 * max(want) for a, w in zip(got, want)),
+                        all(abs(float(a) - w) <= 1e-8 * w + t for a, w, t in zip(got, want, cmt)),
                         f"learner2D.triangle_loss = {list(map(float, got))}, exact {want}")
 
 
